@@ -1,19 +1,28 @@
 #!/venv/bin/python
-"""tools/applyfix_auto.py <diff>...  -- apply proposed fixes to /repo, one `fix:` commit each; the commit message is the
-header of the diff file (first line without the 'Cnn:' prefix = subject)."""
+"""tools/applyfix_auto.py <diff>...  -- apply proposed fixes to /repo, one `fix:` commit each.  The commit message is taken
+from the header of the diff file: first line = subject ("fix: ..."), following lines (optionally '#'-commented) = body, minus
+the lines that talk about this verification machinery (they mean nothing to a reader of the repository history)."""
 import re, subprocess, sys
+DROP = re.compile(r'/verif|\./check|VERIF_REPO|[Vv]erified|Found by|found by the|Property C\d|property C\d|spec/|known finding|scratch worktree|'
+                  r'repository suite|Repository suite|tools/|KNOWN-FINDING|quick tier|quick exits|C\d\d check|check C\d\d|tier quick|\(C\d\d')
 for f in sys.argv[1:]:
     text = open(f).read()
     i = text.index('diff --git')
-    header = [l.lstrip('# ').rstrip() for l in text[:i].strip().splitlines()]
-    subj = re.sub(r'^C\d+( ?/ ?C\d+)?:\s*', '', header[0]).strip().rstrip('.')
-    subj = subj[0].lower() + subj[1:] if subj and not subj.startswith(('fn:', 'XPath', 'XSD', 'NaN')) else subj
-    body = '\n'.join(l for l in header[1:] if not re.match(r'^(Verified|Repository|Repair|tests/|With the patch|The tests of)', l)).strip()
-    msg = f'fix: {subj}\n\n{body}\n'
+    header = [re.sub(r'^#\s?', '', l).rstrip() for l in text[:i].strip().splitlines()]
+    subj = re.sub(r'^(fix:\s*)+', '', re.sub(r'^C\d+( ?/ ?C\d+)?:\s*', '', header[0])).strip().rstrip('.')
+    paras, cur = [], []
+    for l in header[1:] + ['']:
+        if l.strip():
+            cur.append(l)
+        elif cur:
+            paras.append(cur)
+            cur = []
+    kept = ['\n'.join(p) for p in paras if not any(DROP.search(l) for l in p)]
+    msg = f'fix: {subj}\n\n' + '\n\n'.join(kept) + '\n'
     open('/tmp/applyfix.diff', 'w').write(text[i:])
-    r = subprocess.run('git apply --recount /tmp/applyfix.diff', shell=True, cwd='/repo', capture_output=True, text=True)
+    r = subprocess.run('git apply --recount -3 /tmp/applyfix.diff', shell=True, cwd='/repo', capture_output=True, text=True)
     if r.returncode:
         print('FAILED', f, r.stderr[:300]); continue
     subprocess.run(['git', 'commit', '-qam', msg], cwd='/repo', check=True)
     h = subprocess.run('git log --oneline -1', shell=True, cwd='/repo', capture_output=True, text=True).stdout[:7]
-    print(f'{h} {f.split("/")[-1]}  |  fix: {subj[:90]}')
+    print(f'{h} {f.split("/")[-1]}  |  fix: {subj[:100]}')
